@@ -11,6 +11,7 @@ theorem inv_step {cfg : Cfg} {s s' : St} {e : Ev} (h : Inv cfg s) (hs : step cfg
   cases e with
   | call a c => exact inv_call h hs
   | ret a r => exact inv_ret h hs
+  | cbPushMany a n => exact inv_cbPushMany h hs
   | tas a old => exact inv_tas h hs
   | loadLock a v => exact inv_loadLock h hs
   | loadEmpty a v => exact inv_loadEmpty h hs
